@@ -221,6 +221,8 @@ extern "C" void vs_end() {
     myId = -1;
 }
 extern "C" long long vs_now_us() { return clockUs; }
+extern "C" void vs_advance_us(long long us) { if (active && myId >= 0) clockUs += us; }
+extern "C" void vs_set_query_us(long long us) { queryUs = us; }
 extern "C" int vs_active() { return active && myId >= 0; }
 
 static inline bool managed() { return active && myId >= 0; }
